@@ -95,12 +95,12 @@ Definition dns_const (name : list N) : N :=
   end.
 Definition in_names (v : N) (names : list (list N)) : bool := existsb (fun n => dns_const n =? v) names.
 
-(* crypto.Hash identities used as hash ids of the oracle: their digest sizes *)
-Definition HSHA1 : N := 1.
-Definition HSHA256 : N := 2.
-Definition HSHA384 : N := 4.
-Definition HSHA512 : N := 5.
-Definition hash_id_of_name (n : list N) : N := dns_const n.   (* crypto.SHA1 ... share the spelling *)
+(* crypto.Hash identities (crypto.SHA1 = 3, SHA256 = 5, SHA384 = 6, SHA512 = 7) are the hash ids of the
+   oracle; their digest sizes *)
+Definition HSHA1 : N := 3.
+Definition HSHA256 : N := 5.
+Definition HSHA384 : N := 6.
+Definition HSHA512 : N := 7.
 Definition hash_size (h : N) : N :=
   if h =? HSHA1 then 20 else if h =? HSHA256 then 32 else if h =? HSHA384 then 48 else if h =? HSHA512 then 64 else 0.
 
@@ -175,13 +175,13 @@ Definition oversized (pk : list N) : bool :=
 
 (* dsDigestHash: digest type -> hash id *)
 Definition ds_digest_hash (dt : N) : option N :=
-  match find (fun p => dns_const (fst p) =? dt) (combine ds_digest_hash_types ds_digest_hash_hashes) with
-  | Some p => Some (hash_id_of_name (snd p))
+  match find (fun p => (fst p =? Z.of_N dt)%Z) ds_digest_hash_cases with
+  | Some p => Some (Z.to_N (snd p))
   | None => None
   end.
-(* IsSupportedDSDigest / IsSupportedDNSKEYAlgorithm *)
-Definition is_supported_ds_digest (t : N) : bool := in_names t supported_ds_digest_names.
-Definition is_supported_dnskey_alg (a : N) : bool := in_names a supported_dnskey_alg_names.
+(* IsSupportedDSDigest / IsSupportedDNSKEYAlgorithm: the translated functions *)
+Definition is_supported_ds_digest (t : N) : bool := go_IsSupportedDSDigest t.
+Definition is_supported_dnskey_alg (a : N) : bool := go_IsSupportedDNSKEYAlgorithm a.
 
 (* ---------------------------------------------------------------- names *)
 (* presentation-format helpers of miekg/dns, on octet strings *)
@@ -406,7 +406,7 @@ Definition keytag_lib (flags proto alg : N) (pk : list N) : option N :=
 
 (* dnssec.KeyTag *)
 Definition keytag (flags proto alg : N) (pk : list N) : N :=
-  if in_names alg keytag_rsamd5_alg then rsamd5_keytag pk
+  if alg =? keytag_rsamd5_alg_value then rsamd5_keytag pk
   else if oversized pk then 0
   else
     let sum := wrap32 (wrap32 (wrap32 (wrap32 (N.shiftr flags 8 * 256) + N.land flags 255) + wrap32 (proto * 256)) + alg) in
@@ -477,10 +477,10 @@ Definition rsa_hash (alg : N) : option (N * list N) :=
   else None.
 (* rsaCryptoHash *)
 Definition rsa_crypto_hash (alg : N) : option N :=
-  if in_names alg rsa_crypto_sha1_algs then Some HSHA1
-  else if in_names alg rsa_crypto_sha256_algs then Some HSHA256
-  else if in_names alg rsa_crypto_sha512_algs then Some HSHA512
-  else None.
+  match find (fun p => (fst p =? Z.of_N alg)%Z) rsa_crypto_hash_cases with
+  | Some p => Some (Z.to_N (snd p))
+  | None => None
+  end.
 (* crypto/rsa's own DigestInfo prefixes (RFC 8017 9.2 note 1) *)
 Definition stdlib_prefix (h : N) : list N :=
   if h =? HSHA1 then [48;33;48;9;6;5;43;14;3;2;26;5;0;4;20]
@@ -683,7 +683,7 @@ Definition lib_preflight (k : dnskey) (s : rrsig) (rrset : list rr) : option boo
            end
   end.
 
-Definition verify_signature_supported (alg : N) : bool := in_names alg verify_supported_alg_names.
+Definition verify_signature_supported (alg : N) : bool := go_verifySignatureSupported alg.
 
 Section Crypto.
   (* big.Int.Exp *)
